@@ -19,9 +19,17 @@ MANIFEST = dict(
          "whitespace mode) after each number. Python side, by path-sensitive evaluation over terms with private helpers followed: text "
          "output converts a fresh copy to native order before Write (and binary output does not), the reader dtype and the header _DTYPE are "
          "byte-order-stripped exactly for text files, _DELIM is recorded and read back from the header. A scan suffix that begins with a "
-         "whitespace directive is reported as a hazard for a following fixed-width string field with leading blanks.",
-    note="Not decided: libc printf/scanf numeric round trip, NaN/inf spellings. Assumes LP64 and that stdio calls succeed. Bounded shapes, not a proof "
-         "for all sizes. The whitespace-directive hazard is a recorded known finding.",
+         "whitespace directive is reported as a hazard for a following fixed-width string field with leading blanks. Added: (a) every path of "
+         "the float arms of the number writer is classified; the tests on the value that select a path are evaluated over the partition "
+         "{NaN, -inf, negative, -0, +0, positive, +inf} of all values (IEEE-754 comparisons and arithmetic on intervals, isnan/isinf/"
+         "isfinite/signbit), and a path that writes a constant text instead of handing the value to printf must be reachable by a single "
+         "value only, which the text scans back to (C99 strtod grammar); (b) after the last number of a field exactly one separator is "
+         "consumed, decided for {mode} x {blank / non-blank delimiter} x {separator is the delimiter / the newline ending a row} from the "
+         "C99 meaning of the scan suffix's directives plus the single-character reads after the last fscanf; (c) the results of "
+         "remove_dtype_byteorder and SFile._remove_byteorder cannot carry the argument's byte order: each type string (<entry>[1]) reaches "
+         "the result only without its first character, a result made by newbyteorder uses a code that means native.",
+    note="Not decided: libc printf/scanf numeric round trip and libc's own spellings of NaN/inf (special values the code spells itself are decided). "
+         "Assumes LP64 and that stdio calls succeed. Bounded shapes, not a proof for all sizes. The whitespace-directive hazard is a recorded known finding.",
     technique="static analysis: bounded symbolic execution of the C++ reader/writer and format-table code over the clang AST (trace comparison), "
               "printf/scanf directive parsing and type agreement, path-sensitive term evaluation of the Python wrappers",
 )
@@ -61,11 +69,11 @@ def run(chk):
         chk.analysed_unit(nm)
     chk.assume("stdio calls succeed while a table is read or written (no end of file, no write error, one item converted per fscanf)")
     tu = _TU(cfun)
-    scan, prt = format_tables(chk, tu)
+    scan, prt, suffix = format_tables(chk, tu)
     arms = switch_arms(chk, tu)
     tables(chk, scan, prt, arms)
     strings(chk, tu)
-    delimiters(chk, tu)
+    delimiters(chk, tu, suffix)
     python_side(chk, repo)
     # the converter used before a text write decides on every field with a byte order (shared rule with C16)
     from checks import C16
@@ -294,7 +302,8 @@ class _CX:
             return _mkaff(base, off + a * (rt or 1))
         if isinstance(a, tuple) and isinstance(b, tuple) and _aff(a)[0] == _aff(b)[0] and (a[0] == "aff" or b[0] == "aff") and op in ("-", "<", ">", "<=", ">=", "==", "!="):
             return self.binop(op, _aff(a)[1], _aff(b)[1])
-        if op in ("==", "!=") and a == b and not (isinstance(a, tuple) and a[0] == "undef"):
+        fp = any(_ct(x) in _FP_MAX for x in ks)          # x == x is not a tautology for a floating-point x (NaN)
+        if op in ("==", "!=") and a == b and not (isinstance(a, tuple) and a[0] == "undef") and not (fp and isinstance(a, tuple)):
             return int(op == "==")
         if op in ("==", "!=") and ((isinstance(a, tuple) and a[0] == "aff" and b == 0) or (isinstance(b, tuple) and b[0] == "aff" and a == 0)):
             return int(op == "!=")
@@ -577,7 +586,7 @@ class _CX:
         vals = [self.rv(a, env) for a in args]
         if fn is not None and name not in self.opaque and cfront.body_of(fn) is not None:
             return self.run(fn, vals)
-        if fn is None and name not in self.opaque and name not in _LIBC and not name.startswith(("Py", "_Py", "__builtin", "operator")):
+        if fn is None and name not in self.opaque and name not in _LIBC and _fp_pure(name) is None and not name.startswith(("Py", "_Py", "__builtin", "operator")):
             self.foreign.add(name)          # neither the C library nor a function of the dump at hand
         return self.external(name, vals)
 
@@ -756,7 +765,27 @@ class _Trace:
         return [e for e in self.events if e[0] == "store"]
 
 
-_LIBC = {"fgetc", "getc", "ungetc", "fputc", "putc", "fputs", "fprintf", "fscanf", "sscanf", "fwrite", "fread", "fflush", "feof", "ferror", "fseek", "ftell",
+_FP_MAX = {"float": 3.4028234663852886e+38, "double": 1.7976931348623157e+308, "long double": 1.7976931348623157e+308}
+_FP_TINY = {"float": 1e-45, "double": 5e-324, "long double": 5e-324}
+# classification functions of <math.h> / <cmath> / npy_math.h: no effect, the result is a function of the argument's value class
+_FP_PURE = {"isnan": "isnan", "isinf": "isinf", "isfinite": "isfinite", "finite": "isfinite", "signbit": "signbit", "fabs": "fabs", "abs": "fabs",
+            "copysign": "copysign", "isinf_sign": "isinf_sign", "inf": "inf", "huge_val": "inf", "nan": "nan"}
+
+
+def _fp_pure(name):
+    """canonical name of a pure floating-point classification function (std::isnan, __builtin_isnanf, npy_isnan, __isinfl ...) or None"""
+    n = (name or "").split("::")[-1]
+    for pre in ("__builtin_", "npy_", "__"):
+        if n.startswith(pre):
+            n = n[len(pre):]
+    if n in _FP_PURE:
+        return _FP_PURE[n]
+    if n[-1:] in ("f", "l") and n[:-1] in _FP_PURE:
+        return _FP_PURE[n[:-1]]
+    return None
+
+
+_LIBC = {"isnan", "isinf", "isfinite", "finite", "signbit", "fabs", "fabsf", "copysign", "copysignf", "fgetc", "getc", "ungetc", "fputc", "putc", "fputs", "fprintf", "fscanf", "sscanf", "fwrite", "fread", "fflush", "feof", "ferror", "fseek", "ftell",
          "rewind", "snprintf", "sprintf", "printf", "strlen", "memcpy", "memset", "memmove", "strcmp", "strncmp", "strncpy", "isspace", "malloc", "free"}
 
 
@@ -921,6 +950,10 @@ def format_tables(chk, tu):
         sufs.add((t[len(plain[i]):] if t is not None and t.startswith(plain[i]) else None, rest))
     suf = next(iter(sufs)) if len(sufs) == 1 else (None, ())
     has_delim = suf[0] is not None and suf[1] == (_SYM("mDelim"),) and all(ws[i] == plain[i] for i in idx.values())
+    if not has_delim and len(sufs) == 1 and all(ws[i] == plain[i] for i in idx.values()):
+        # another spelling that, by the C99 meaning of its directives, consumes the delimiter whatever character it is (e.g. %*c)
+        dirs = _suffix_directives(suf)
+        has_delim = dirs is not None and all(_suffix_consumes(dirs, blank, "D") == 1 for blank in (False, True))
     shown = "%r + %s" % (suf[0], " + ".join("mDelim" if p == _SYM("mDelim") else str(p) for p in suf[1])) if len(sufs) == 1 else str(sorted(sufs, key=str))
     chk.ob("R04.4", "reader::scan-suffix-consumes-delimiter", has_delim, W,
            "outside whitespace mode every scan format is the plain format followed by the delimiter, so that it is consumed with the number; in whitespace mode "
@@ -930,7 +963,326 @@ def format_tables(chk, tu):
            "the scan suffix is `%s`: a whitespace directive before the delimiter also consumes the end of line after the last number of a row *and* any leading "
            "blanks of the next row, so a fixed-width string field with leading spaces that starts a row is read shifted" % shown)
     names = {i: n for n, i in NPY_TYPES.items()}
-    return ({names[i]: v for i, v in enumerate(plain) if i in names}, {names[i]: v for i, v in enumerate(prt) if i in names})
+    # the suffix of the scan formats in whitespace mode (none today), found the same way
+    wsufs = set()
+    for n, i in idx.items():
+        t, rest = _split(ws[i])
+        wsufs.add((t[len(plain[i]):] if t is not None and t.startswith(plain[i]) else None, rest))
+    suffix = {"delim": suf if len(sufs) == 1 else None, "ws": next(iter(wsufs)) if len(wsufs) == 1 else None}
+    return ({names[i]: v for i, v in enumerate(plain) if i in names}, {names[i]: v for i, v in enumerate(prt) if i in names}, suffix)
+
+
+
+# ---------------------------------------------------------------------------
+# value classes of a floating-point number (R04.1 ...::special-values-keep-their-identity)
+#
+# The property wants NaN, +inf and -inf preserved.  A writer may leave that to printf (the value is handed to the conversion of its
+# type) or spell special values itself; in the second case the text it writes is a constant, so it can stand for one value only.
+# Every path of the writer is taken (the interpreter forks on each test on the value), and the tests that select the path are
+# evaluated over the finite partition {NaN, -inf, negative finite, -0, +0, positive finite, +inf} of ALL values of the type
+# (IEEE-754 arithmetic and comparisons on intervals; what the table below does not decide is "unknown").  A path that writes a
+# constant text is right only if every class that can reach it is a single value and the text scans back (C99 strtod) to that value.
+# ---------------------------------------------------------------------------
+_INF = float("inf")
+_NAN = ("nan",)
+
+
+def _iv(lo, hi, neg):
+    return ("iv", lo, hi, neg)
+
+
+def _fp_classes(ctype):
+    m, t = _FP_MAX[ctype], _FP_TINY[ctype]
+    return [("NaN", _NAN), ("-inf", _iv(-_INF, -_INF, True)), ("negative finite", _iv(-m, -t, True)), ("-0", _iv(0.0, 0.0, True)), ("+0", _iv(0.0, 0.0, False)),
+            ("positive finite", _iv(t, m, False)), ("+inf", _iv(_INF, _INF, False))]
+
+
+def _fp_const(x):
+    if isinstance(x, bool):
+        x = int(x)
+    if x != x:
+        return _NAN
+    import math
+    return _iv(float(x), float(x), math.copysign(1.0, float(x)) < 0)
+
+
+def _fp_arith(op, a, b, m):
+    """IEEE-754 + - * / on abstract values; None = not decided by this table"""
+    if a is None or b is None:
+        return None
+    if a == _NAN or b == _NAN:
+        return _NAN
+    if op == "-":
+        b = _iv(-b[2], -b[1], None if b[3] is None else not b[3])
+        op = "+"
+    exact = lambda v: v[1] == v[2]      # noqa: E731
+    if op == "+":
+        if exact(a) and exact(b) and abs(a[1]) == _INF and abs(b[1]) == _INF:
+            return _NAN if a[1] != b[1] else a
+        if (_INF in (abs(a[1]), abs(a[2]))) and (_INF in (abs(b[1]), abs(b[2]))):
+            return None
+        lo, hi = a[1] + b[1], a[2] + b[2]
+        lo, hi = (-_INF if lo < -m else lo), (_INF if hi > m else hi)      # the sum of two finite numbers can overflow
+        return _iv(lo, hi, a[3] if a[3] == b[3] else None)
+    if op == "*":
+        zero = lambda v: v[1] == 0 and v[2] == 0      # noqa: E731
+        for x, y in ((a, b), (b, a)):
+            if zero(x):
+                if exact(y) and abs(y[1]) == _INF:
+                    return _NAN
+                if abs(y[1]) != _INF and abs(y[2]) != _INF:
+                    return _iv(0.0, 0.0, None)
+                return None
+        if exact(a) and exact(b) and abs(a[1]) != _INF and abs(b[1]) != _INF and abs(a[1] * b[1]) <= m:
+            return _fp_const(a[1] * b[1])
+        return None
+    return None
+
+
+def _fp_cmp(op, a, b):
+    if a is None or b is None:
+        return None
+    if a == _NAN or b == _NAN:
+        return op == "!="
+    if op == "<":
+        return True if a[2] < b[1] else (False if a[1] >= b[2] else None)
+    if op == "<=":
+        return True if a[2] <= b[1] else (False if a[1] > b[2] else None)
+    if op == ">":
+        return _fp_cmp("<", b, a)
+    if op == ">=":
+        return _fp_cmp("<=", b, a)
+    if op in ("==", "!="):
+        eq = True if (a[1] == a[2] == b[1] == b[2]) else (False if (a[2] < b[1] or b[2] < a[1]) else None)
+        return eq if op == "==" or eq is None else (not eq)
+    return None
+
+
+class _FpEval:
+    """value of a term of the interpreter when the number read from the buffer belongs to one class"""
+
+    def __init__(self, value, cls, ctype, rets):
+        self.value, self.cls, self.m, self.rets = value, cls, _FP_MAX[ctype], rets
+
+    def mentions(self, t):
+        if t == self.value:
+            return True
+        if isinstance(t, tuple) and t and t[0] == "ret" and t in self.rets:
+            return any(self.mentions(x) for x in self.rets[t][1])
+        return isinstance(t, tuple) and any(self.mentions(x) for x in t[1:] if isinstance(x, tuple))
+
+    def num(self, t):
+        """abstract number, or None"""
+        if t == self.value:
+            return self.cls
+        if isinstance(t, (int, float)):
+            return _fp_const(t)
+        if not isinstance(t, tuple) or not t:
+            return None
+        if t[0] == "un" and t[1] in ("-", "+"):
+            v = self.num(t[2])
+            if v is None or v == _NAN or t[1] == "+":
+                return v
+            return _iv(-v[2], -v[1], None if v[3] is None else not v[3])
+        if t[0] == "op" and t[1] in ("+", "-", "*", "/"):
+            if t[1] == "-" and t[2] == t[3]:
+                v = self.num(t[2])              # x - x: 0 for a finite x, NaN otherwise
+                if v is None or v == _NAN:
+                    return v
+                if abs(v[1]) != _INF and abs(v[2]) != _INF:
+                    return _iv(0.0, 0.0, False)
+                return _NAN if v[1] == v[2] else None
+            return _fp_arith(t[1], self.num(t[2]), self.num(t[3]), self.m)
+        if t[0] == "ret" and t in self.rets:
+            f, args = self.rets[t]
+            a = [self.num(x) for x in args]
+            if f == "inf":
+                return _iv(_INF, _INF, False)
+            if f == "nan":
+                return _NAN
+            if f in ("fabs", "copysign") and a and a[0] is not None:
+                v = a[0]
+                if v != _NAN:
+                    v = _iv(-v[2], -v[1], False) if v[2] <= 0 else (_iv(v[1], v[2], False) if v[1] >= 0 else _iv(0.0, max(-v[1], v[2]), False))
+                if f == "fabs" or v == _NAN:
+                    return v
+                s = a[1] if len(a) > 1 else None
+                if s is None or s == _NAN or s[3] is None:
+                    return None
+                return _iv(-v[2], -v[1], True) if s[3] else v
+            if f == "isinf_sign" and a and a[0] is not None:
+                v = a[0]
+                if v == _NAN or (abs(v[1]) != _INF and abs(v[2]) != _INF):
+                    return _fp_const(0)
+                return _fp_const(1 if v[1] > 0 else -1) if v[1] == v[2] else None
+        b = self.truth(t, _number=False)
+        return None if b is None else _fp_const(int(b))
+
+    def truth(self, t, _number=True):
+        """True / False / None (not decided)"""
+        if isinstance(t, (int, float)):
+            return t != 0
+        if not isinstance(t, tuple) or not t:
+            return None
+        if t[0] == "un" and t[1] == "!":
+            r = self.truth(t[2])
+            return None if r is None else (not r)
+        if t[0] == "op" and t[1] in ("==", "!=", "<", ">", "<=", ">="):
+            if t[2] == t[3]:                    # one and the same number on both sides: decided by whether it is a NaN
+                v = self.num(t[2])
+                return None if v is None else ((t[1] == "!=") if v == _NAN else (t[1] in ("==", "<=", ">=")))
+            return _fp_cmp(t[1], self.num(t[2]), self.num(t[3]))
+        if t[0] == "ret" and t in self.rets:
+            f, args = self.rets[t]
+            v = self.num(args[0]) if args else None
+            if v is None:
+                return None
+            if f == "isnan":
+                return v == _NAN
+            if f == "isinf":
+                return False if v == _NAN else (True if (v[1] == v[2] and abs(v[1]) == _INF) else (False if (abs(v[1]) != _INF and abs(v[2]) != _INF) else None))
+            if f == "isfinite":
+                return False if v == _NAN else (True if (abs(v[1]) != _INF and abs(v[2]) != _INF) else (False if (v[1] == v[2]) else None))
+            if f == "signbit":
+                return None if v == _NAN else v[3]
+        if _number:
+            v = self.num(t)
+            return None if v is None else _fp_cmp("!=", v, _fp_const(0))
+        return None
+
+
+def _strtod_value(text):
+    """what a C99 scanf floating conversion reads from `text` when the whole of it is the number: NaN / +-inf / a float; None: it is not
+    a number in its entirety (the rest would be left in the stream)"""
+    import re
+    t = text.strip(_WSCH)
+    m = re.fullmatch(r"([+-]?)(?:(inf(?:inity)?)|(nan(?:\([0-9A-Za-z_]*\))?)|((?:\d+\.?\d*|\.\d+)(?:[eE][+-]?\d+)?))", t, re.I)
+    if not m:
+        return None
+    neg = m.group(1) == "-"
+    if m.group(2):
+        return _iv(-_INF, -_INF, True) if neg else _iv(_INF, _INF, False)
+    if m.group(3):
+        return _NAN
+    x = float(m.group(4))
+    return _fp_const(-x if neg else x)
+
+
+def _const_output(c):
+    """the text a stdio call writes to the open stream when that text is a constant of the source; None otherwise"""
+    n, a = c[1], c[2]
+    f = _FPTR
+    if n == "fputs" and len(a) == 2 and a[1] == f and isinstance(a[0], str):
+        return a[0]
+    if n in ("fputc", "putc") and len(a) == 2 and a[1] == f and isinstance(a[0], int):
+        return chr(a[0])
+    if n == "fprintf" and len(a) >= 2 and a[0] == f and isinstance(a[1], str):
+        if len(a) == 2 and not printf_directives(a[1])["directives"]:
+            return a[1].replace("%%", "%")
+        if len(a) == 3 and a[1] == "%s" and isinstance(a[2], str):
+            return a[2]
+        if len(a) == 3 and a[1] == "%c" and isinstance(a[2], int):
+            return chr(a[2])
+    if n == "fwrite" and len(a) == 4 and a[3] == f and isinstance(a[0], str) and isinstance(a[1], int) and isinstance(a[2], int) and a[1] * a[2] == len(a[0]):
+        return a[0]
+    return None
+
+
+def _float_arm(buf, trs, names):
+    """the arm of a floating-point type, every path of it: the C type read, the format entry used, and whether each value class is
+    written in a way that can be read back -> dict(cast, fmt_index, unrec, special=(verdict, text))"""
+    a = {"cast": [], "fmt_index": [], "unrec": None, "special": (None, "")}
+    loads = set()
+
+    def find(t):
+        if isinstance(t, tuple):
+            if t and t[0] == "load" and len(t) == 3 and t[1] == buf:
+                loads.add(t)
+            for x in t:
+                find(x)
+    for tr in trs:
+        for e in tr.events:
+            find(e)
+        for t in tr.decided:
+            find(t)
+    if len(loads) != 1 or next(iter(loads))[2] not in _FP_MAX:
+        a["unrec"] = "the arm reads the buffer as %s" % (sorted(_show(x) + ":" + str(x[2]) for x in loads) or "nothing")
+        return a
+    value = next(iter(loads))
+    ctype = value[2]
+    a["cast"] = [ctype]
+    verdicts, notes, kinds = [], [], []
+    for tr in trs:
+        rets = {c[4]: (_fp_pure(c[1]), c[2]) for c in tr.calls() if _fp_pure(c[1])}
+        out = [c for c in tr.calls() if not _fp_pure(c[1])]
+        fmt_call = len(out) == 1 and out[0][1] == "fprintf" and len(out[0][2]) == 3 and out[0][2][0] == _FPTR and out[0][2][2] == value
+        texts = [_const_output(c) for c in out]
+        if tr.end == "return" and fmt_call:
+            kind = "fmt"
+            fmt = out[0][2][1]
+            idx = [names.get(fmt[2], fmt[2])] if isinstance(fmt, tuple) and fmt[0] == "idx" and fmt[1] == _SYM("mPrintFormats") else [_show(fmt)]
+            if a["fmt_index"] and a["fmt_index"] != idx:
+                a["unrec"] = "the paths of the arm format with different entries: %s, %s" % (a["fmt_index"], idx)
+            a["fmt_index"] = a["fmt_index"] or idx
+        elif tr.end == "return" and out and all(t is not None for t in texts) and not tr.stores():
+            kind = "text"
+        elif tr.end == "throw" and not [c for c in out if c[1] in _WRITERS]:
+            kind = "throw"
+        else:
+            kind = "other"
+        kinds.append(kind)
+        if kind == "fmt":
+            verdicts.append(True)
+            continue
+        if kind == "other":
+            verdicts.append(None)
+            a["unrec"] = a["unrec"] or "a path of the arm makes the calls %s" % ["%s(%s)" % (c[1], ", ".join(_show(x) for x in c[2])) for c in out][:4]
+            continue
+        # which classes of values reach this path
+        reach = []
+        for cname, cls in _fp_classes(ctype):
+            ev = _FpEval(value, cls, ctype, rets)
+            st = "yes"
+            for t, outcome in tr.decided.items():
+                if not ev.mentions(t):
+                    if any(isinstance(x, tuple) for x in t[2:]) and _CX.oracle(t) is None:
+                        st = "maybe" if st == "yes" else st        # a test on something else selects the path, too
+                    continue
+                r = ev.truth(t)
+                if r is None:
+                    st = "maybe" if st == "yes" else st
+                elif r != outcome:
+                    st = "no"
+                    break
+            if st != "no":
+                reach.append((cname, cls, st))
+        tests = ", ".join("%s is %s" % (_show(t), str(r).lower()) for t, r in tr.decided.items() if _FpEval(value, _NAN, ctype, rets).mentions(t))
+        if kind == "throw":
+            if not tests:
+                continue                       # not selected by the value (a failed stdio call ...)
+            sure = [c for c, _v, st in reach if st == "yes"]
+            verdicts.append(False if sure else None)
+            if sure:
+                notes.append("values of the class(es) %s are rejected with an exception (path: %s)" % (sure, tests))
+            continue
+        text = "".join(texts)
+        tv = _strtod_value(text)
+        for cname, cls, st in reach:
+            single = cls == _NAN or cls[1] == cls[2]
+            same = tv is not None and single and ((cls == _NAN) == (tv == _NAN)) and (cls == _NAN or (tv[1] == cls[1] and tv[2] == cls[2]))
+            if same:
+                verdicts.append(True)
+            else:
+                verdicts.append(False if st == "yes" else None)
+                if st == "yes":
+                    notes.append("the fixed text %r is written for %s values (path: %s), but it %s" % (
+                        text, cname, tests or "unconditional", "is not a number for scanf" if tv is None else "reads back as %s" % ("NaN" if tv == _NAN else tv[1])))
+    if "fmt" not in kinds and not a["unrec"]:
+        a["unrec"] = "no path of the arm hands the value to fprintf with the format of the type"
+    v = False if any(x is False for x in verdicts) else (None if (not verdicts or any(x is None for x in verdicts)) else True)
+    shown = "%d path(s): %s" % (len(kinds), ", ".join(kinds))
+    a["special"] = (v, shown + ("; " + "; ".join(notes[:3]) if notes else ""))
+    return a
 
 
 def switch_arms(chk, tu):
@@ -941,17 +1293,26 @@ def switch_arms(chk, tu):
     arms, followed = {}, []
     for name in NEEDED:
         try:
-            trs = list(c_paths(tu, entry, [buf, NPY_TYPES[name]], _mem(), max_paths=8))
+            trs = list(c_paths(tu, entry, [buf, NPY_TYPES[name]], _mem(), max_paths=64 if NEEDED[name].startswith("f") else 8))
         except AnalysisError:
             raise
         except Exception as e:
             arms[name] = {"cast": [], "fmt_index": [], "unrec": "bounded execution gave up: %s" % e}
             continue
+        every = trs
         trs = [t for t in trs if t.end == "return"]
         if not trs:
             continue                    # no arm: the type falls through to the part that raises
         pr = [t.calls() for t in trs]
         followed += [f for t in trs for f in t.followed if f not in followed]
+        if NEEDED[name].startswith("f"):
+            try:
+                arms[name] = _float_arm(buf, every, names)
+            except AnalysisError:
+                raise
+            except Exception as e:
+                arms[name] = {"cast": [], "fmt_index": [], "unrec": "the paths of the arm could not be classified: %s %s" % (type(e).__name__, e)}
+            continue
         a = {"cast": [], "fmt_index": [], "unrec": None}
         if len(trs) != 1 or len(pr[0]) != 1 or pr[0][0][1] != "fprintf" or len(pr[0][0][2]) != 3:
             a["unrec"] = "the arm does not make exactly one fprintf call with one value: %s" % [[c[1] for c in p] for p in pr]
@@ -1012,6 +1373,10 @@ def tables(chk, scan, prt, arms):
             okf = p["conv"] in "gGe" and p["length"] in ("", "l")
             okp = okf and ctype == ("float" if code == "f4" else "double")
             chk.ob("R04.1", tag + "::print-matches-dereferenced-type", okp if (known or not okf) else None, W, "print %r formats a %s (promoted to double)" % (prt[idx], ctype or un))
+            sv, stext = arm.get("special", (None, un or ""))
+            chk.ob("R04.1", tag + "::special-values-keep-their-identity", sv, W,
+                   "every value either goes to the printf conversion of its type or is written as a fixed text that belongs to exactly that value and that scanf "
+                   "reads back as it: NaN, +inf and -inf are not merged with each other or with finite values (Records::WriteNumberAsAscii, %s)" % stext)
             need = 7 if code == "f4" else 16
             chk.ob("R04.1", tag + "::significant-digits", p["prec"] is not None and p["prec"] >= need, W, "%s significant digits requested, >= %d needed for %s" % (p["prec"], need, code))
         okz = SCAN_SIZE.get((s["length"], s["conv"])) == int(code[1])
@@ -1157,7 +1522,7 @@ def _is_newline_out(c):
     return (n in ("fputc", "putc") and a == (10, f)) or (n == "fputs" and a == ("\n", f)) or (n == "fprintf" and a in ((f, "\n"), (f, "%c", 10), (f, "%s", "\n")))
 
 
-def delimiters(chk, tu):
+def delimiters(chk, tu, suffix=None):
     data, fptr = _SYM("mData"), _FPTR
     wkeys = [("R04.4", "writer::delimiter-between-elements", "the delimiter is written between the elements of a sub-array field, not after the last"),
              ("R04.4", "writer::delimiter-between-fields", "the delimiter is written between fields, not after the last"),
@@ -1279,6 +1644,133 @@ def delimiters(chk, tu):
         chk.ob("R04.4", "reader::scan-uses-type-format", _all(v_fmt), W, "numbers are scanned with the scan format of their type into the output element, one fscanf per element" + extra)
         chk.ob("R04.4", "reader::cursor-advances-by-element-size", _all(v_cur), W, "the output cursor advances by one element (size/nel bytes) per scanned element" + extra)
 
+    separator_after_number(chk, tu, suffix)
+
+
+_WSCH = " \t\n\v\f\r"
+_CHAR_READERS = ("fgetc", "getc", "getc_unlocked", "fgetc_unlocked")
+
+
+def _suffix_directives(suf):
+    """the scanf directives of a scan-format suffix (known text + unknown pieces), in order: 'W' a whitespace directive, ('L', ch) a
+    literal character, 'D' the delimiter string, 'C' one character of any kind (%*c).  None: something this table does not model"""
+    if suf is None or suf[0] is None:
+        return None
+    out = []
+    for part in [suf[0]] + list(suf[1]):
+        if part == _SYM("mDelim") or part == ("idx", _SYM("mDelim"), 0):
+            out.append("D")
+            continue
+        if not isinstance(part, str):
+            return None
+        i = 0
+        while i < len(part):
+            ch = part[i]
+            if ch in _WSCH:
+                if not out or out[-1] != "W":
+                    out.append("W")
+                i += 1
+            elif ch == "%":
+                if part[i:i + 3] == "%*c":
+                    out.append("C")
+                    i += 3
+                elif part[i:i + 4] == "%*1c":
+                    out.append("C")
+                    i += 4
+                elif part[i:i + 2] == "%%":
+                    out.append(("L", "%"))
+                    i += 2
+                else:
+                    return None
+            else:
+                out.append(("L", ch))
+                i += 1
+    return out
+
+
+def _suffix_consumes(dirs, delim_is_space, c):
+    """C99 fscanf on the directives `dirs` when the next input character is the separator c ('D': the delimiter, 'N': the newline that
+    ends a row): how many characters from the separator on are consumed for certain (0, 1, 2 = the separator and a byte of the next
+    field), or None when that depends on the configured delimiter.  Whitespace skipped *after* the separator is the subject of R04.5."""
+    pending, n = True, 0
+    for d in dirs:
+        if d == "D":
+            d = "W" if delim_is_space else ("L", None)
+        if d == "W":
+            if pending and (c == "N" or delim_is_space):
+                pending, n = False, 1
+        elif d == "C":
+            if not pending:
+                return 2
+            pending, n = False, 1
+        else:
+            if not pending or c == "N" or delim_is_space:
+                return n                    # a literal against a blank / against the next field: matching stops here
+            if d[1] is not None:
+                return None                 # a fixed character against the configured delimiter
+            pending, n = False, 1
+    return n
+
+
+def separator_after_number(chk, tu, suffix):
+    """Every field reader leaves the stream at the first byte of the next field (the string reader takes that byte as data): after the
+    last number of a field the one separator that follows must be consumed, and that separator is the delimiter between fields but the
+    newline after the last field of a row.  Decided for every case of the finite domain {mode} x {delimiter is a blank character or
+    not} x {separator is the delimiter, the newline}: C99 semantics of the suffix of the scan format + the single-character reads the
+    reader makes after the last fscanf of the field."""
+    key = "reader::separator-after-number-consumed"
+    msg = "after the last number of a field exactly one separator is consumed, the delimiter as well as the end of line that ends a row"
+    buf = _mkaff(_SYM("buff"), 0)
+
+    def go():
+        out = {}
+        for ws in (0, 1):
+            tr = _one(tu, "Records::read_from_text_column", [1, buf], _mem(mTypeNums=_Arr(_D), mReadAsWhitespace=ws))
+            if tr.end != "return":
+                raise _CUnrec("read_from_text_column throws on the test shape")
+            names = [c[1] for c in tr.calls()]
+            if "fscanf" not in names:
+                raise _CUnrec("no fscanf in the number reader: %s" % names)
+            out[ws] = names[len(names) - names[::-1].index("fscanf"):]
+        return out
+    tails = _group(chk, [("R04.4", key, msg)], go)
+    if tails is None:
+        return
+    if suffix is None:
+        chk.ob("R04.4", key, None, W, msg + " [the scan suffix was not evaluated]")
+        return
+    verdicts, shown, bad = [], [], []
+    for ws in (0, 1):
+        suf = suffix.get("ws" if ws else "delim")
+        dirs = _suffix_directives(suf)
+        tail = tails[ws]
+        extra = len(tail) if all(t in _CHAR_READERS for t in tail) else None
+        text = "?" if suf is None else " + ".join([repr(suf[0])] * bool(suf[0]) + ["mDelim" if p == _SYM("mDelim") else _show(p) for p in suf[1]]) or "none"
+        shown.append("%s mode: scan suffix %s, %s separate single-character read(s)" % ("whitespace" if ws else "delimiter", text, extra if extra is not None else tail))
+        for blank in ((True,) if ws else (False, True)):
+            for c in ("D", "N"):
+                n = None if dirs is None else _suffix_consumes(dirs, blank, c)
+                tot = None if n is None or extra is None else n + extra
+                verdicts.append(None if tot is None else tot == 1)
+                if tot is not None and tot != 1:
+                    bad.append((tot, "%s mode, %s delimiter: the %s after the last number of a field is %s" % (
+                        "whitespace" if ws else "delimiter", "blank (tab)" if blank and not ws else ("blank" if blank else "non-blank"),
+                        "delimiter" if c == "D" else "end of line", "not consumed" if tot == 0 else "consumed together with %d byte(s) of the next field" % (tot - 1))))
+    v = _verdict(verdicts)
+    if v is False and all(t == 0 for t, _ in bad):
+        # nothing consumes it at this level: a reader that does it once per row in the callers is a design this rule does not know
+        callers = [q for q, fn in tu.funcs.items() if cfront.body_of(fn) is not None and q.split("::")[-1] not in ("read_from_text_column", "scan_column_values") and
+                   any(cfront.callee_name(x) == "read_from_text_column" for x in cfront.walk(cfront.body_of(fn)) if x.get("kind") in ("CallExpr", "CXXMemberCallExpr"))]
+        direct = [q for q in callers if any(cfront.callee_name(x) in _CHAR_READERS + ("fscanf", "ungetc", "fgets", "getline") for x in cfront.walk(cfront.body_of(tu.funcs[q]))
+                                            if x.get("kind") in ("CallExpr", "CXXMemberCallExpr"))]
+        if direct:
+            v = None
+            shown.append("the callers %s read from the stream themselves" % direct)
+    extra = "; ".join(shown + [b for _, b in bad[:3]])
+    if v is False:
+        extra += " -- Records::make_scan_formats builds the suffix; a string field that starts the next row is then read from the wrong byte"
+    chk.ob("R04.4", key, v, W, "%s (%s)" % (msg, extra))
+
 # ---------------------------------------------------------------------------
 # path-sensitive evaluation of small python functions (R04.3)
 #
@@ -1294,10 +1786,10 @@ class _Unrec(Exception):
 
 
 class _V:
-    __slots__ = ("op", "name", "args", "kw")
+    __slots__ = ("op", "name", "args", "kw", "node")
 
-    def __init__(self, op, name=None, args=(), kw=None):
-        self.op, self.name, self.args, self.kw = op, name, list(args), dict(kw or {})
+    def __init__(self, op, name=None, args=(), kw=None, node=None):
+        self.op, self.name, self.args, self.kw, self.node = op, name, list(args), dict(kw or {}), node
 
     def __repr__(self):
         return "<%s>" % _txt(self)
@@ -1645,7 +2137,7 @@ class _PX:
             kids = [e.operand] if isinstance(e, ast.UnaryOp) else [e.left] + list(e.comparators)
             return [(_V("other", type(e).__name__ + ":" + norm(e), vs), s) for vs, s in self.ev_many(kids, st, ctx)]
         if isinstance(e, (ast.JoinedStr, ast.FormattedValue, ast.Lambda, ast.ListComp, ast.SetComp, ast.DictComp, ast.GeneratorExp)):
-            return [(_V("other", type(e).__name__ + ":" + norm(e)), st)]      # no calls are followed inside these
+            return [(_V("other", type(e).__name__ + ":" + norm(e), node=e), st)]      # no calls are followed inside these
         raise _Unrec("expression %s at line %s" % (type(e).__name__, getattr(e, "lineno", "?")))
 
     def call(self, e, st, ctx):
@@ -1804,10 +2296,221 @@ def _verdict(vs):
 
 
 def python_side(chk, repo):
+    strippers(chk, repo)
     recfile_write(chk, repo)
     recfile_open(chk, repo)
     make_header(chk, repo)
     sfile_open(chk, repo)
+
+
+# ---- the order strippers --------------------------------------------------------------------------------------------------------
+# What Recfile.open hands to the text reader and what SFile._make_header stores as _DTYPE is the *result* of a stripper, so the
+# rules above ("the dtype is stripped for text files") only mean something if the stripper's result cannot carry the byte order
+# of its argument.  Dataflow over the path terms: the type string of an entry of the argument's descriptor (<entry>[1]) reaches the
+# result only through the removal of its first character; a result made by numpy's newbyteorder must use a code that means
+# "native".  Identified through the parameter, `.descr`, iteration / indexing and the position of the type string in a descriptor
+# entry -- not through local names or statement layout (loop + append, list display, comprehension, copy-and-assign all do).
+_ORDER_CODES = {"native": "=Nn", "keep": "|Ii", "fixed": "<>LlBbSs"}
+
+
+def _descr_like(x):
+    if x is None:
+        return False
+    if x.op == "param" or (x.op == "attr" and x.name == "descr"):
+        return True
+    return x.op == "call" and x.name in ("list", "tuple", "copy", "deepcopy") and len(x.args) >= 2 and _descr_like(x.args[1])
+
+
+def _is_entry(t):
+    if t.op == "elem":
+        return bool(t.args) and _descr_like(t.args[0])
+    if t.op != "sub" or not _descr_like(t.args[0]):
+        return False
+    i = t.args[1]            # <descriptor>[i] with an index (not a slice): one entry
+    return (i.op == "const" and isinstance(i.name, int) and not isinstance(i.name, bool)) or i.op in ("elem", "name", "param", "binop")
+
+
+def _const_is(v, value):
+    return v is not None and v.op == "const" and v.name == value and type(v.name) is type(value)
+
+
+def _int_or(v, default):
+    if _const_is(v, None):
+        return default
+    if v.op == "const" and isinstance(v.name, int) and not isinstance(v.name, bool) and v.name >= 0:
+        return v.name
+    return "?"
+
+
+def _entry_parts(t, st, depth=0, heap=True):
+    """the items an entry-valued term is put together from, in order: ('one', term) or ('slice', entry, lo, hi) (hi None: to the end);
+    None: not recognised (or the object had items assigned to, which the caller looks up)"""
+    if t is None or depth > 10:
+        return None
+    if _is_entry(t):
+        return [("slice", t, 0, None)]
+    if t.op == "seq" and t.name in ("tuple", "list"):
+        return [("one", a) for a in t.args]
+    if t.op == "binop" and t.name == "Add":
+        a, b = _entry_parts(t.args[0], st, depth + 1), _entry_parts(t.args[1], st, depth + 1)
+        return None if a is None else a + (b if b is not None else [("unknown",)])      # what follows item 1 does not matter
+    if t.op == "call" and t.name in ("list", "tuple", "copy", "deepcopy") and len(t.args) == 2 and not t.kw:
+        if heap and any(k[0] == _hkey(t) for k in st.heap):
+            return None
+        return _entry_parts(t.args[1], st, depth + 1)
+    if t.op == "sub" and _is_entry(t.args[0]) and t.args[1].op == "other" and t.args[1].name == "slice" and len(t.args[1].args) == 3:
+        lo, hi, step = t.args[1].args
+        lo, hi = _int_or(lo, 0), _int_or(hi, None)
+        if "?" in (lo, hi) or not (_const_is(step, None) or _const_is(step, 1)):
+            return None
+        return [("slice", t.args[0], lo, hi)]
+    return None
+
+
+def _entry_ts(t, st, depth=0, heap=True):
+    """'kept' / 'stripped' / None (not recognised): the state of the type string -- item 1 -- of a descriptor entry.  heap=False: as
+    the entry was made (a term <x>[1] is always a read that came before any assignment to <x>[1]: later reads give the assigned value)"""
+    if t is None or depth > 10:
+        return None
+    parts = _entry_parts(t, st, depth, heap)
+    if parts is not None:
+        pos = 0
+        for p in parts:
+            if p[0] == "unknown":
+                return None
+            if p[0] == "one":
+                if pos == 1:
+                    return _ts_state(p[1], st, depth + 1)
+                pos += 1
+                continue
+            _k, _e, lo, hi = p
+            if hi is None or pos + (hi - lo) > 1:           # item 1 of the result is item lo + (1 - pos) of the argument's entry
+                k = lo + (1 - pos)
+                return "kept" if k == 1 else None
+            if hi > 2:
+                return None                                 # an entry need not have that many items
+            pos += max(hi - lo, 0)
+        return None
+    if t.op == "call" and t.name in ("list", "tuple", "copy", "deepcopy") and len(t.args) >= 2:
+        h = st.heap.get((_hkey(t), "[1]")) if heap else None         # <copy>[1] = ... replaced the type string
+        if h is not None:
+            return _ts_state(h, st, depth + 1)
+        if heap and any(k[0] == _hkey(t) for k in st.heap):
+            return _entry_ts(t, st, depth + 1, heap=False)          # other items were assigned to
+        return _entry_ts(t.args[1], st, depth + 1)
+    return None
+
+
+def _ts_state(t, st, depth=0):
+    """'kept': a type string of the argument with its order character, 'stripped': without it, None: not recognised"""
+    if t is None or depth > 10:
+        return None
+    if t.op == "sub":
+        base, idx = t.args
+        if _const_is(idx, 1):
+            return _entry_ts(base, st, depth + 1, heap=False)
+        if idx.op == "other" and idx.name == "slice" and len(idx.args) == 3:
+            inner = _ts_state(base, st, depth + 1)
+            lo, hi, step = idx.args
+            if inner == "kept" and _const_is(hi, None) and (_const_is(step, None) or _const_is(step, 1)):
+                if _const_is(lo, 1):
+                    return "stripped"
+                if _const_is(lo, None) or _const_is(lo, 0):
+                    return "kept"
+            return None
+    if t.op == "call" and t.name == "lstrip" and t.args[0] is not None and len(t.args) == 2 and t.args[1].op == "const" and isinstance(t.args[1].name, str):
+        if _ts_state(t.args[0], st, depth + 1) == "kept" and set(t.args[1].name) == set("<>=|"):
+            return "stripped"
+    return None
+
+
+def _result_order(px, t, st, ctx, depth=0):
+    """(verdict, note) for the value a stripper returns: True = it cannot carry the argument's byte order, False = it does"""
+    if t is None or depth > 6:
+        return None, "the result is not recognised"
+    if t.op == "param" or (t.op == "attr" and t.name == "descr") or _is_entry(t):
+        return False, "returns %s, the argument's type strings as they are" % _txt(t)
+    if t.op == "sub" and t.args[0].op == "param" and t.args[1].op == "other" and t.args[1].name == "slice":
+        lo, hi, step = t.args[1].args
+        if _const_is(lo, 1) and _const_is(hi, None) and _const_is(step, None):
+            return True, ""                                  # a single type string: everything after its first character
+        if (_const_is(lo, None) or _const_is(lo, 0)) and _const_is(hi, None) and _const_is(step, None):
+            return False, "returns %s, the type string with its order character" % _txt(t)
+        return None, "returns %s" % _txt(t)
+    if t.op == "call" and t.name == "newbyteorder" and t.args[0] is not None:
+        code = t.args[1] if len(t.args) >= 2 else t.kw.get("new_order")
+        if code is None:
+            return False, "returns %s: without a code newbyteorder swaps, whatever the host order is" % _txt(t)
+        if code.op == "const" and isinstance(code.name, str) and code.name:
+            kind = next((k for k, chars in _ORDER_CODES.items() if code.name[0] in chars), None)
+            if kind == "native":
+                return True, ""
+            if kind == "keep":
+                return False, "returns %s: for numpy the code %r means 'leave the byte order as it is', the order of the argument is kept" % (_txt(t), code.name)
+            if kind == "fixed":
+                return False, "returns %s: the code %r is a fixed / swapped order, not the order of the host" % (_txt(t), code.name)
+        return None, "returns %s" % _txt(t)
+    if t.op == "call" and t.name in ("list", "tuple", "dtype", "copy", "deepcopy") and len(t.args) == 2 and not t.kw:
+        return _result_order(px, t.args[1], st, ctx, depth + 1)
+    elems = None
+    if t.op == "seq" and t.name in ("list", "tuple"):
+        elems = list(t.args)
+        for e in st.events:
+            if e[0] == "call" and e[1].args and e[1].args[0] is t:
+                if e[1].name != "append" or len(e[1].args) != 2:
+                    return None, "the result is changed by %s" % _txt(e[1])
+                elems.append(e[1].args[1])
+        if any(k[0] == _hkey(t) for k in st.heap):
+            return None, "entries of the result are assigned to"
+        if not elems:
+            return "empty", ""
+    elif t.op == "other" and isinstance(t.node, ast.ListComp) and len(t.node.generators) == 1 and not t.node.generators[0].is_async:
+        g = t.node.generators[0]
+        s2 = st.fork()
+        elems = []
+        for it, s3 in px.ev(g.iter, s2, ctx):
+            px.assign(g.target, _V("elem", "elem", [it]), s3, ctx)
+            elems += [v for v, _s in px.ev(t.node.elt, s3, ctx)]
+            st = s3
+    if elems is None:
+        return None, "returns %s" % _txt(t)[:80]
+    states = [_entry_ts(e, st) for e in elems]
+    if "kept" in states:
+        return False, "an entry of the result (%s) has the type string of the argument with its order character" % _txt(elems[states.index("kept")])[:200]
+    if None in states:
+        return None, "an entry of the result is %s" % _txt(elems[states.index(None)])[:120]
+    return True, ""
+
+
+def strippers(chk, repo):
+    for q in ("esutil.recfile.Util.remove_dtype_byteorder", "esutil.sfile.SFile._remove_byteorder"):
+        fi = repo.funcs.get(q)
+        short = q.split(".", 2)[-1] if "SFile" in q else q.rsplit(".", 1)[-1]
+        key = short.replace("sfile.", "") + "::result-carries-no-byte-order"
+        msg = "the result cannot carry the byte order of the argument: each type string reaches it without its first (order) character, or numpy makes it native"
+        if fi is None:
+            chk.ob("R04.3", key, None, "esutil", msg + " [%s not found]" % q)
+            continue
+        chk.analysed_unit(fi.qualname)
+        try:
+            px = _PX(repo, stop=())
+            res = px.run(fi)
+            vs, notes = [], []
+            for status, ret, st in res:
+                if status not in ("fall", "return"):
+                    continue
+                v, note = _result_order(px, ret, st, (fi, 2))
+                if v == "empty":
+                    continue                     # the path of an argument without fields
+                vs.append(v)
+                if note and note not in notes:
+                    notes.append(note)
+        except _Unrec as e:
+            chk.ob("R04.3", key, None, fi.where(), "%s [path evaluation of %s gave up: %s]" % (msg, fi.name, e))
+            continue
+        if not any(v is True for v in vs):
+            vs.append(None)
+        chk.ob("R04.3", key, _verdict(vs), fi.where(), msg + ((" (%s: %s)" % (fi.name, "; ".join(notes[:3]))) if notes else ""))
 
 
 def recfile_write(chk, repo):
